@@ -1073,7 +1073,29 @@ fn symc_str(r: &mut Rng, d: u32) -> String {
     }
 }
 
+/// context atoms (second fragment): required `n: Long`, `flag: Bool`; optional `m?: Long`, `s?: String`, `u?: User`
+/// (optional ones behind the documented `has` guards, plus a few unguarded / near-miss forms the typechecker rejects)
+fn symc_ctx_bool(r: &mut Rng, d: u32) -> String {
+    match r.below(12) {
+        0 => "context.flag".into(),
+        1 => format!("(context.n < {})", symc_long(r, d)),
+        2 => format!("(context has m && context.m + {} < context.n)", symc_long(r, d)),
+        3 => "(context has s && context.s == \"x\")".into(),
+        4 => "(context has u && context.u == principal)".into(),
+        5 => format!("(context has {})", ["m", "s", "u", "n", "flag", "zz"][r.below(6)]),
+        6 => format!("(!(context has m) || context.m * {} == context.n)", symc_long(r, d)),
+        7 => format!("((if context has m then context.m else context.n) <= {})", symc_long(r, d)),
+        8 => "(context == context)".into(),
+        9 => format!("(context.n + {} == {})", symc_long(r, d), symc_long(r, d)),
+        10 => "(context.flag == (context has s))".into(),
+        _ => format!("(context.m < {})", symc_long(r, d)), // unguarded optional: typechecker rejects
+    }
+}
+
 fn symc_bool(r: &mut Rng, d: u32) -> String {
+    if r.chance(22) {
+        return symc_ctx_bool(r, d.min(1));
+    }
     if d == 0 {
         return match r.below(4) {
             0 => "true".into(),
@@ -1123,7 +1145,8 @@ fn symc_read_term(cp: &sc::CompiledPolicy) -> String {
 
 pub fn run_symc(args: &Args, out: &mut Out) {
     let ext = Extensions::all_available();
-    let text = "entity User; entity Doc; entity Color enum [\"red\", \"green\"]; action view, edit appliesTo { principal: User, resource: Doc };";
+    let text = "entity User; entity Doc; entity Color enum [\"red\", \"green\"]; action view, edit appliesTo { principal: User, resource: Doc, context: { flag: Bool, m?: Long, n: Long, s?: String, u?: User } };";
+    let ctxty = "(ctxty (\"flag\" req bool) (\"m\" opt long) (\"n\" req long) (\"s\" opt string) (\"u\" opt (entity \"User\")))";
     let (vschema, _) = ValidatorSchema::from_cedarschema_str(text, ext).expect("symc schema");
     let schema: cedar_policy::Schema = vschema.clone().into();
     let pub_ents = cedar_policy::Entities::from_json_value(serde_json::json!([
@@ -1143,6 +1166,11 @@ pub fn run_symc(args: &Args, out: &mut Out) {
         "-(-9223372036854775807 - 1) == 0".into(),
         "3037000500 * 3037000500 < 0".into(),
         "-9223372036854775808 - 1 < 0".into(),
+        "context has m && context.m + 1 < context.n".into(),
+        "context has s && context.s == \"x\"".into(),
+        "context has zz || context.flag".into(),
+        "context == context".into(),
+        "(if context has m then context.m else context.n) + 9223372036854775807 < 0".into(),
     ];
     let total = fixed.len() as u64 + args.n;
     for case in 0..total {
@@ -1157,10 +1185,20 @@ pub fn run_symc(args: &Args, out: &mut Out) {
             continue;
         };
         let (pu, au, ru): (EntityUID, EntityUID, EntityUID) = (format!("User::\"{p}\"").parse().unwrap(), format!("Action::\"{a}\"").parse().unwrap(), "Doc::\"d\"".parse().unwrap());
-        let req = ast::Request::new((pu.clone(), None), (au.clone(), None), (ru.clone(), None), ast::Context::empty(), Some(&vschema), ext).expect("symc request");
+        // the context: required attributes always, each optional one supplied with probability 1/2
+        let mut cpairs: Vec<(smol_str::SmolStr, ast::RestrictedExpr)> = vec![
+            ("flag".into(), ast::RestrictedExpr::val(r.chance(50))),
+            ("n".into(), ast::RestrictedExpr::val([0i64, 1, 5, -3, 9223372036854775807][r.below(5)])),
+        ];
+        if r.chance(50) { cpairs.push(("m".into(), ast::RestrictedExpr::val([0i64, 1, 4, -9223372036854775807, 9223372036854775807][r.below(5)]))); }
+        if r.chance(50) { cpairs.push(("s".into(), ast::RestrictedExpr::val(["x", "y"][r.below(2)]))); }
+        if r.chance(50) { cpairs.push(("u".into(), ast::RestrictedExpr::val(format!("User::\"{}\"", ["a", "b"][r.below(2)]).parse::<EntityUID>().unwrap()))); }
+        let cdesc = cpairs.iter().map(|(k, v)| format!("{k}: {v}")).collect::<Vec<_>>().join(", ");
+        let ctx = ast::Context::from_pairs(cpairs, ext).expect("symc context");
+        let req = ast::Request::new((pu.clone(), None), (au.clone(), None), (ru.clone(), None), ctx, Some(&vschema), ext).expect("symc request");
         let env = cedar_policy::RequestEnv::new(pu.entity_type().clone().into(), au.clone().into(), ru.entity_type().clone().into());
         let cenv = sc::Env { request: req.clone().into(), entities: entities.clone().into() };
-        let describe = format!("symc case={case} p=User::\"{p}\" a=Action::\"{a}\" r=Doc::\"d\" when `{body}`");
+        let describe = format!("symc case={case} p=User::\"{p}\" a=Action::\"{a}\" r=Doc::\"d\" context={{{cdesc}}} when `{body}`");
         let symenv = match catch_unwind(AssertUnwindSafe(|| sc::SymEnv::from_concrete_env(&env, &schema, &cenv))) {
             Ok(Ok(e)) => e,
             other => {
@@ -1204,11 +1242,13 @@ pub fn run_symc(args: &Args, out: &mut Out) {
             continue;
         };
         out.count(&format!("symc:folded:{}", if imp.starts_with("(nonliteral") { "(nonliteral)" } else { imp.as_str() }));
-        out.nontrivial(&format!("{body}|{p}|{a}"));
+        out.nontrivial(&format!("{body}|{p}|{a}|{cdesc}"));
+        if body.contains("context") { out.count("symc:uses-context"); }
         if out.samples.len() < 5 {
             out.sample(format!("{describe} -> {imp}"));
         }
-        let reqline = format!("(symc (req {} {} {} (ctx)) {etys} {ex})", crate::sx::uid(&pu), crate::sx::uid(&au), crate::sx::uid(&ru));
+        let reqsx = crate::sx::request(&pu, &au, &ru, &crate::c14::ctx_value(&req));
+        let reqline = format!("(symc {reqsx} {etys} {ctxty} {ex})");
         out.line(reqline, imp, describe);
     }
 }
